@@ -253,6 +253,7 @@ class Grammar:
         self.root = root
         self.I = I
         self.steps = 0
+        self.trace = None        # when a list: (action, node, start) appended for every parse action applied
 
     def nodes(self):
         seen, out, stack = set(), [], [self.root]
@@ -296,6 +297,8 @@ class Grammar:
         loc, toks = self._impl(n, s, loc)
         if n.actions:
             for fn in n.actions:
+                if self.trace is not None:
+                    self.trace.append((fn, n, start))
                 r = self._call(fn, s, start, toks)
                 if r is not None and r is not toks:
                     if isinstance(r, GenVal):
